@@ -257,40 +257,48 @@ impl World {
             o.count("quiet_skipped_assumptions");
             return;
         }
+        if let Err(msg) = self.quiescent_now() {
+            o.fail("C02/not-quiescent", msg);
+        }
+    }
+
+    /// Is the world quiescent (used by the oracle, and by the generator to end the fair suffix)?
+    pub fn quiescent_now(&self) -> Result<(), String> {
         for i in 0..2 {
             let (e, p) = (&self.eps[i], &self.eps[1 - i]);
             if e.dead || p.dead {
-                return;
+                return Ok(());
+            }
+            // the application (or the peer) ended the connection: no progress obligation
+            if e.kind() == "Disconnected" || p.kind() == "Disconnected" {
+                return Ok(());
             }
             if p.del_vital.len() != e.sub_vital.len() {
-                o.fail("C02/not-quiescent", format!("endpoint {} submitted {} vital chunks, peer received {} after the fair suffix", i, e.sub_vital.len(), p.del_vital.len()));
-                return;
+                return Err(format!("endpoint {} submitted {} vital chunks, peer received {} after the fair suffix", i, e.sub_vital.len(), p.del_vital.len()));
             }
             if e.connector && e.ready != 1 {
-                o.fail("C02/not-quiescent", format!("connecting endpoint {} saw ready {} times after the fair suffix", i, e.ready));
-                return;
+                return Err(format!("connecting endpoint {} saw ready {} times after the fair suffix", i, e.ready));
             }
             if e.kind() == "Online" {
-                // nothing queued: a flush sends nothing; nothing unacknowledged: a tick one second
-                // later sends at most a keep-alive (no chunk packet)
+                // nothing queued (and no resend request pending): a flush sends nothing; nothing
+                // unacknowledged: ticks one second later send at most a keep-alive (no chunk packet)
                 let mut c = e.conn.verif_clone();
                 let mut cb = Cb { now: self.now, draws: VecDeque::new(), sent: vec![] };
                 let _ = catch(|| c.flush(&mut cb));
                 if !cb.sent.is_empty() {
-                    o.fail("C02/not-quiescent", format!("endpoint {} still had queued chunks after the fair suffix", i));
-                    return;
+                    return Err(format!("endpoint {} still had something queued after the fair suffix", i));
                 }
                 cb.now += 1_000_000;
                 let _ = catch(|| c.tick(&mut cb));
                 let _ = catch(|| c.tick(&mut cb));
                 for d in &cb.sent {
                     if parse_sent(d).chunks.is_some() {
-                        o.fail("C02/not-quiescent", format!("endpoint {} still had unacknowledged chunks after the fair suffix", i));
-                        return;
+                        return Err(format!("endpoint {} still had unacknowledged chunks after the fair suffix", i));
                     }
                 }
             }
         }
+        Ok(())
     }
 
     fn ep_op(&mut self, i: usize, args: &[&str], o: &mut Oracle) -> String {
@@ -875,10 +883,10 @@ impl<'a> Gen<'a> {
                 break;
             }
             self.advance_to_deadline();
-            // settled: everything submitted has arrived and a whole round produced no chunk packet
-            let done = (0..2).all(|i| self.w.eps[1 - i].del_vital.len() == self.w.eps[i].sub_vital.len());
+            // settled: everything has arrived, nothing is queued or unacknowledged, and a whole
+            // round produced no chunk packet
             let chunky = (0..2).any(|i| self.w.eps[i].hist[before[i]..].iter().any(|d| parse_sent(&d.bytes).chunks.is_some()));
-            if done && !chunky {
+            if !chunky && self.w.quiescent_now().is_ok() {
                 settled += 1;
                 if settled >= 2 {
                     break;
